@@ -1,7 +1,7 @@
 (* C10 — executable instance of the lexer's character classes and the text
    printers used by the correspondence check (same line format as
    numbat::verif::syntax::{dump_tokens, dump_ast}). *)
-From NV Require Import Base.Show Syntax.Token Syntax.Ast Syntax.StrEsc Syntax.Lexer Syntax.Parser.
+From NV Require Import Base.Show Syntax.Token Syntax.Ast Syntax.StmtAst Syntax.StrEsc Syntax.Lexer Syntax.Parser.
 From Coq Require Import Bool.
 Local Open Scope N_scope.
 
@@ -99,6 +99,34 @@ Definition show_perr (e : perr) : string :=
   | ExpectedIdentifierAfterLet => "ExpectedIdentifierAfterLet"
   | ExpectedEqualOrColonAfterLetIdentifier => "ExpectedEqualOrColonAfterLetIdentifier"
   | ExpectedLeftParenAfterProcedureName => "ExpectedLeftParenAfterProcedureName"
+  | ExpectedIdentifierAfterFn => "ExpectedIdentifierAfterFn"
+  | ExpectedLeftParenInFunctionDefinition => "ExpectedLeftParenInFunctionDefinition"
+  | ExpectedCommaEllipsisOrRightParenInFunctionDefinition => "ExpectedCommaEllipsisOrRightParenInFunctionDefinition"
+  | ExpectedParameterNameInFunctionDefinition => "ExpectedParameterNameInFunctionDefinition"
+  | ExpectedLocalVariableDefinition => "ExpectedLocalVariableDefinition"
+  | AliasUsedOnFunction => "AliasUsedOnFunction"
+  | ExpectedIdentifierAfterDimension => "ExpectedIdentifierAfterDimension"
+  | DoubleUnderscoreTypeNamesReserved => "DoubleUnderscoreTypeNamesReserved"
+  | ExpectedDecoratorName => "ExpectedDecoratorName" | UnknownDecorator => "UnknownDecorator"
+  | ExpectedLeftParenAfterDecorator => "ExpectedLeftParenAfterDecorator" | ExpectedString => "ExpectedString"
+  | ExpectedIdentifierAfterUnit => "ExpectedIdentifierAfterUnit"
+  | ExpectedColonOrEqualAfterUnitIdentifier => "ExpectedColonOrEqualAfterUnitIdentifier"
+  | ExampleUsedOnUnsuitableKind => "ExampleUsedOnUnsuitableKind"
+  | DecoratorsWithPrefixOnLetDefinition => "DecoratorsWithPrefixOnLetDefinition"
+  | DecoratorUsedOnUnsuitableKind => "DecoratorUsedOnUnsuitableKind"
+  | ExpectedModulePathAfterUse => "ExpectedModulePathAfterUse"
+  | ExpectedModuleNameAfterDoubleColon => "ExpectedModuleNameAfterDoubleColon"
+  | ExpectedLeftCurlyAfterStructName => "ExpectedLeftCurlyAfterStructName"
+  | UnknownBound => "UnknownBound"
+  | ExpectedBoundInTypeParameterDefinition => "ExpectedBoundInTypeParameterDefinition"
+  | ExpectedCommaOrRightAngleBracket => "ExpectedCommaOrRightAngleBracket"
+  | ExpectedTypeParameterName => "ExpectedTypeParameterName"
+  | ExpectedTokenInFunctionType => "ExpectedTokenInFunctionType"
+  | ExpectedTokenInListType => "ExpectedTokenInListType"
+  | ExpectedDimensionPrimary => "ExpectedDimensionPrimary" | ExpectedDimensionExponent => "ExpectedDimensionExponent"
+  | NumberInDimensionExponentOutOfRange => "NumberInDimensionExponentOutOfRange"
+  | DivisionByZeroInDimensionExponent => "DivisionByZeroInDimensionExponent"
+  | OverflowInDimensionExponent => "OverflowInDimensionExponent" | UnknownAliasAnnotation => "UnknownAliasAnnotation"
   end.
 
 Definition show_binop (o : binop) : string :=
@@ -128,13 +156,68 @@ Fixpoint show_expr (e : expr) : string :=
       "(struct " ++ esc n ++ String.concat "" (map (fun fe => " (" ++ esc (fst fe) ++ " " ++ show_expr (snd fe) ++ ")") fs) ++ ")"
   end%string.
 
+Fixpoint show_texp (t : texp) : string :=
+  match t with
+  | TEUnity => "(tunity)"
+  | TEIdent n args => "(tid " ++ esc n ++ String.concat "" (map (fun a => " " ++ show_tann a) args) ++ ")"
+  | TEMul a b => "(tmul " ++ show_texp a ++ " " ++ show_texp b ++ ")"
+  | TEDiv a b => "(tdiv " ++ show_texp a ++ " " ++ show_texp b ++ ")"
+  | TEPow a e => "(tpow " ++ show_texp a ++ " " ++ show_Z (fst e) ++ "/" ++ show_N (Npos (snd e)) ++ ")"
+  end%string
+with show_tann (t : tann) : string :=
+  match t with
+  | TAExp e => show_texp e
+  | TABool => "(tbool)" | TAString => "(tstring)" | TADateTime => "(tdatetime)"
+  | TAFn ps r => "(tfn (params" ++ String.concat "" (map (fun a => " " ++ show_tann a) ps) ++ ") " ++ show_tann r ++ ")"
+  | TAList a => "(tlist " ++ show_tann a ++ ")"
+  end%string.
+
+Definition show_opt_tann (o : option tann) : string := match o with Some t => show_tann t | None => "_" end.
+
+Definition show_decorator (d : decorator) : string :=
+  match d with
+  | DMetricPrefixes => "(metric_prefixes)" | DBinaryPrefixes => "(binary_prefixes)" | DAbbreviation => "(abbreviation)"
+  | DAliases l =>
+      "(aliases" ++ String.concat "" (map (fun a : str * option accepts =>
+         " (" ++ esc (fst a) ++ " " ++
+         match snd a with None => "_" | Some AcBoth => "both" | Some AcShort => "short"
+                        | Some AcLong => "long" | Some AcNone => "none" end ++ ")") l) ++ ")"
+  | DUrl u => "(url """ ++ esc u ++ """)"
+  | DName u => "(name """ ++ esc u ++ """)"
+  | DDescription u => "(description """ ++ esc u ++ """)"
+  | DExample c d => "(example """ ++ esc c ++ """ " ++ match d with Some x => """" ++ esc x ++ """" | None => "_" end ++ ")"
+  end%string.
+Definition show_decos (ds : list decorator) : string :=
+  ("(decos" ++ String.concat "" (map (fun d => " " ++ show_decorator d) ds) ++ ")")%string.
+
+Definition show_defvar (v : defvar) : string :=
+  ("(let " ++ esc (dv_name v) ++ " " ++ show_opt_tann (dv_ann v) ++ " " ++ show_decos (dv_decos v) ++ " "
+   ++ show_expr (dv_expr v) ++ ")")%string.
+
+Definition show_tparams (l : list (str * bool)) : string :=
+  ("(tparams" ++ String.concat "" (map (fun p : str * bool =>
+      " (" ++ esc (fst p) ++ " " ++ (if snd p then "Dim" else "_") ++ ")") l) ++ ")")%string.
+
 Definition show_stmt (s : stmt) : string :=
   match s with
   | StExpr e => show_expr e
-  | StLet n e => "(let " ++ esc n ++ " " ++ show_expr e ++ ")"
+  | StLet v => show_defvar v
   | StProc k args =>
       "(" ++ (match k with KPrint => "print" | KAssert => "assert" | KAssertEq => "assert_eq" | _ => "type" end)
           ++ String.concat "" (map (fun a => " " ++ show_expr a) args) ++ ")"
+  | StFn n tps ps ret body locals decos =>
+      "(fn " ++ esc n ++ " " ++ show_tparams tps ++ " (params"
+      ++ String.concat "" (map (fun p : str * option tann => " (" ++ esc (fst p) ++ " " ++ show_opt_tann (snd p) ++ ")") ps)
+      ++ ") " ++ show_opt_tann ret ++ " " ++ match body with Some b => show_expr b | None => "_" end
+      ++ " (where" ++ String.concat "" (map (fun v => " " ++ show_defvar v) locals) ++ ") " ++ show_decos decos ++ ")"
+  | StDimension n ds => "(dimension " ++ esc n ++ String.concat "" (map (fun d => " " ++ show_texp d) ds) ++ ")"
+  | StUnit n ann e decos =>
+      "(unit " ++ esc n ++ " " ++ show_opt_tann ann ++ " " ++ match e with Some x => show_expr x | None => "_" end
+      ++ " " ++ show_decos decos ++ ")"
+  | StUse p => "(use" ++ String.concat "" (map (fun m => " " ++ esc m) p) ++ ")"
+  | StStruct n tps fs =>
+      "(struct-def " ++ esc n ++ " " ++ show_tparams tps ++ " (fields"
+      ++ String.concat "" (map (fun f : str * tann => " (" ++ esc (fst f) ++ " " ++ show_tann (snd f) ++ ")") fs) ++ "))"
   end%string.
 
 Definition show_tokens (r : lres (list token)) : string :=
